@@ -300,10 +300,16 @@ def C15(tier, seed):
         cp = {0: [0, 1], 2: [0, 1], 3: [0, 1, 2, 3], 4: [0, 1, 2, 3]}; bes = [0, 2, 3]; progs = ['H2', 'HIa', 'X']; mc = 30
     else:
         cp = {0: [0, 1], 3: [0, 2]}; bes = [0, 3]; progs = ['H2']; mc = 8
+    cpq = {0: [1], 3: [1]} if tier != 'thorough' else {0: [0, 1], 2: [0, 1], 3: [0, 1, 2, 3]}
     for be in bes:
         oracle_units(chk, progs, [be], 'C15', proj=STD, copy_modes=cp[be], opts={'second': True},
                      bfs_depth=6, max_confs=mc, timeout=90, strats=['nk', 'nkG'])
-        # copy points with pending queued/deferred events: no verdict (second TU-wide machine + queue copy), see DESIGN 9
+        # copy points with one pending queued event (machine Q2): either machine is then driven by an event or drains its queue
+        if be in cpq:
+            oracle_units(chk, ['Q2'], [be], 'C15', proj=STD, copy_modes=cpq[be], check_queue=True, opts={'second': True, 'queue_api': True},
+                         steps_fn=lambda prog: [('ev', e) for e in prog.events] + [('execq',)],
+                         bfs_steps_fn=lambda prog: [('start',)] + [('ev', e) for e in prog.events] + [('enq', 'e1', '0')],
+                         conf_filter=lambda c: c.started and len(c.queue) == 1, bfs_depth=5, max_confs=16, timeout=90, unwind=8, strats=['nk', 'nkG'])
     chk.bounds.update({'copy_operations': 'copy assignment and copy construction from a const reference (all back-ends), move assignment and move construction (backmp11)'})
     return chk
 
@@ -332,7 +338,8 @@ def C16(tier, seed):
 def C12(tier, seed):
     chk = Check('C12', tier, seed)
     be = [0, 3] + ([2, 4] if tier == 'thorough' else [])
-    progs = ['F1', 'H2'] + (['F1_after_exit', 'F1_before_transition', 'R2', 'A'] if tier == 'thorough' else ['F1_before_transition'])
+    # F1 under each of the four active-state-switch policies (the default is after_entry)
+    progs = ['F1', 'H2', 'F1_after_exit', 'F1_before_transition', 'F1_after_transition_action'] + (['R2', 'A', 'H2_after_transition_action'] if tier == 'thorough' else [])
     oracle_units(chk, progs, be, 'C12', throws=True, proj=('G', 'A', 'E', 'X', 'N', 'C'), opts={'defines': ['VF_THROW_ON 1']},
                  bfs_depth=5, max_confs=(30 if tier == 'thorough' else 10), timeout=90, strats=['nk', 'nkG', 'pk'])
     chk.assumptions.append('C12: translation units are lowered with exceptions enabled; throw / unwind / landing pads are modelled by ll2c (pending-exception flag checked after every call that may unwind; catch clauses matched through the typeinfo base-class chain); only exceptions derived from std::exception thrown by behaviours are exercised, one fault per step, faulting steps are part of the enumerated prefixes (repeated faults)')
